@@ -837,6 +837,131 @@ def _first_call_in_test(test, helpers, cls, caller):
     return walk(holder, "test", test)
 
 
+def _first_call_in_value(val, helpers, cls, caller):
+    """(holder, field, call expr) of the first helper call a statement's value evaluates, unconditionally, with nothing but
+    quiet expressions (names, attributes, constants, len() of those, arithmetic on those) evaluated before it; else None."""
+    def is_helper(e):
+        c = e.value if isinstance(e, ast.Await) else e
+        if not isinstance(c, ast.Call):
+            return False
+        nm = _callee_name(c, cls)[0]
+        return nm in helpers and helpers[nm] is not caller and isinstance(helpers[nm], ast.AsyncFunctionDef) == isinstance(e, ast.Await) and not c.keywords
+
+    def quiet(e):
+        if _simple_expr(e):
+            return True
+        if isinstance(e, ast.Call) and isinstance(e.func, ast.Name) and e.func.id == "len" and len(e.args) == 1 and _simple_expr(e.args[0]) and not e.keywords:
+            return True
+        if isinstance(e, ast.BinOp):
+            return quiet(e.left) and quiet(e.right)
+        if isinstance(e, ast.UnaryOp):
+            return quiet(e.operand)
+        if isinstance(e, ast.Compare):
+            return quiet(e.left) and all(quiet(c) for c in e.comparators)
+        if isinstance(e, (ast.Tuple, ast.List)):
+            return all(quiet(x) for x in e.elts)
+        return False
+    BLOCK = object()
+
+    def walk(holder, field, e):
+        if is_helper(e):
+            return (holder, field, e)
+        kids = []
+        if isinstance(e, (ast.Tuple, ast.List)):
+            kids = [(e, ("elts", i), x) for i, x in enumerate(e.elts)]
+        elif isinstance(e, ast.BinOp):
+            kids = [(e, "left", e.left), (e, "right", e.right)]
+        elif isinstance(e, ast.UnaryOp):
+            kids = [(e, "operand", e.operand)]
+        elif isinstance(e, ast.Compare):
+            kids = [(e, "left", e.left), (e, ("comparators", 0), e.comparators[0])]
+        elif isinstance(e, ast.Call) and _simple_expr(e.func) and not e.keywords and not any(isinstance(a, ast.Starred) for a in e.args):
+            kids = [(e, ("args", i), x) for i, x in enumerate(e.args)]
+        elif isinstance(e, ast.Subscript):
+            kids = [(e, "value", e.value), (e, "slice", e.slice)]
+        else:
+            return None
+        for h_, f_, x in kids:
+            r = walk(h_, f_, x)
+            if r is not None:
+                return r
+            if not quiet(x):
+                return BLOCK
+        return None
+    holder = ast.Module(body=[], type_ignores=[])
+    holder.value = val
+    if is_helper(val):
+        return None
+    r = walk(holder, "value", val)
+    return None if r is BLOCK else r
+
+
+_GENS: dict = {}   # new generator helpers of the scope being inlined (set by inline_helpers)
+
+
+def _fuse_generator_loop(st, helpers, caller, cls):
+    """`for T in h(args): BODY` where h is a plain generator of the shape `PRELUDE; for x in IT: S...; yield E` (one yield, the last
+    statement of its only loop, nothing behind the loop, no return / try / with around it): the generator runs in lock step with
+    the consuming loop, so the statements are `PRELUDE; for x in IT: S...; T = E; BODY` (a `break` / `continue` of BODY acts on
+    the fused loop as it did on the consumer; nothing of the generator runs after its loop)."""
+    name = _callee_name(st.iter, cls)[0]
+    h = _GENS.get(name)
+    if h is None or h is caller or isinstance(h, ast.AsyncFunctionDef) or st.iter.keywords:
+        return None
+    body = h.body
+    if body and isinstance(body[0], ast.Expr) and isinstance(body[0].value, ast.Constant) and isinstance(body[0].value.value, str):
+        body = body[1:]
+    if not body or not isinstance(body[-1], ast.For) or body[-1].orelse:
+        return None
+    loop = body[-1]
+    yields = [x for x in ast.walk(h) if isinstance(x, (ast.Yield, ast.YieldFrom))]
+    if len(yields) != 1 or not isinstance(yields[0], ast.Yield) or yields[0].value is None:
+        return None
+    last = loop.body[-1]
+    if not (isinstance(last, ast.Expr) and last.value is yields[0]):
+        return None
+    if any(isinstance(x, (ast.Return, ast.Try, ast.With, ast.AsyncWith, ast.Await)) for x in ast.walk(h)):
+        return None
+    if any(isinstance(x, (ast.Break, ast.Continue)) for s_ in loop.body for x in ast.walk(s_)):
+        return None
+    tnames = {n.id for n in ast.walk(st.target) if isinstance(n, ast.Name)}
+    if not all(isinstance(n, (ast.Name, ast.Tuple, ast.Store)) for n in ast.walk(st.target)):
+        return None
+    E = yields[0].value
+    marker = ast.Expr(ast.Constant("__fused_body__"))
+    give = []
+    if isinstance(st.target, ast.Tuple) and isinstance(E, ast.Tuple) and len(E.elts) == len(st.target.elts) and all(isinstance(t, ast.Name) for t in st.target.elts):
+        tl = [t.id for t in st.target.elts]
+        safe = all(not any(isinstance(n, ast.Name) and n.id in tl[:j] and not (isinstance(E.elts[tl.index(n.id)], ast.Name) and E.elts[tl.index(n.id)].id == n.id)
+                           for n in ast.walk(v)) for j, v in enumerate(E.elts))
+        if safe:
+            for t, v in zip(tl, E.elts):
+                give.append(ast.Assign([ast.Name(t, ast.Store())], copy.deepcopy(v), lineno=st.lineno))
+    if not give:
+        give = [ast.Assign([copy.deepcopy(st.target)], copy.deepcopy(E), lineno=st.lineno)]
+    pseudo = copy.deepcopy(h)
+    pbody = pseudo.body
+    ploop = pbody[-1]
+    ploop.body = ploop.body[:-1] + give + [marker]
+    for x in ast.walk(pseudo):
+        if isinstance(x, ast.stmt) and not hasattr(x, "lineno"):
+            x.lineno = st.lineno
+    ast.fix_missing_locations(pseudo)
+    exp = _expand(pseudo, st.iter, caller, cls, tnames, "expr")
+    if exp is None:
+        return None
+    new, _ = exp
+    placed = False
+    for s_ in new:
+        for x in ast.walk(s_):
+            if isinstance(x, ast.For) and x.body and x.body[-1] is not None and isinstance(x.body[-1], ast.Expr) and isinstance(x.body[-1].value, ast.Constant) \
+                    and x.body[-1].value.value == "__fused_body__":
+                x.body = x.body[:-1] + st.body
+                x.orelse = st.orelse
+                placed = True
+    return new if placed else None
+
+
 def _inline_in_block(stmts, helpers, caller, cls, rep: Report, failed: set):
     out = []
     changed = False
@@ -852,6 +977,16 @@ def _inline_in_block(stmts, helpers, caller, cls, rep: Report, failed: set):
             nb, ch = _inline_in_block(h.body, helpers, caller, cls, rep, failed)
             h.body = nb
             changed |= ch
+        # `for T in gen(args): BODY` over a new generator helper `PRELUDE; for x in IT: S; yield E`: the two loops fused
+        if isinstance(st, ast.For) and isinstance(st.iter, ast.Call):
+            fused = _fuse_generator_loop(st, helpers, caller, cls)
+            if fused is not None:
+                for s_ in fused:
+                    ast.fix_missing_locations(s_)
+                out.extend(fused)
+                rep.inlined.append((f"{cls + '.' if cls else ''}{_callee_name(st.iter, cls)[0]} (generator)", f"{cls + '.' if cls else ''}{caller.name}", getattr(st, "lineno", 0)))
+                changed = True
+                continue
         # a helper call that is the first non-trivial thing an `if` test evaluates: hoisted into a local in front of the `if`
         if isinstance(st, ast.If):
             found = _first_call_in_test(st.test, helpers, cls, caller)
@@ -876,6 +1011,29 @@ def _inline_in_block(stmts, helpers, caller, cls, rep: Report, failed: set):
                     nb, _ch = _inline_in_block([pre_st], helpers, caller, cls, rep, failed)
                     out.extend(nb)
                     changed = True
+        # a helper call nested in the value of a simple statement (`return a, len(b) - h(b)`): hoisted into a local in front of it
+        if isinstance(st, (ast.Return, ast.Assign, ast.Expr, ast.AugAssign)) and getattr(st, "value", None) is not None:
+            found = _first_call_in_value(st.value, helpers, cls, caller)
+            if found is not None:
+                holder, field, inner = found
+                core_call = inner.value if isinstance(inner, ast.Await) else inner
+                tmp = f"arg__{_callee_name(core_call, cls)[0].replace('mod:', '').strip('_')}"
+                k_ = 2
+                while tmp in _local_names(caller):
+                    tmp = f"{tmp.rstrip('0123456789_')}_{k_}"
+                    k_ += 1
+                pre_st = ast.copy_location(ast.Assign([ast.Name(tmp, ast.Store())], inner, lineno=st.lineno), st)
+                name = ast.copy_location(ast.Name(tmp, ast.Load()), inner)
+                if isinstance(holder, ast.Module):
+                    st.value = name
+                elif isinstance(field, tuple):
+                    getattr(holder, field[0])[field[1]] = name
+                else:
+                    setattr(holder, field, name)
+                ast.fix_missing_locations(pre_st)
+                nb, _ch = _inline_in_block([pre_st], helpers, caller, cls, rep, failed)
+                out.extend(nb)
+                changed = True
         call = mode = None
         targets = set()
         val = getattr(st, "value", None) if isinstance(st, (ast.Expr, ast.Assign, ast.AnnAssign, ast.Return)) else None
@@ -996,6 +1154,22 @@ def _expr_helper(fn):
         if any(isinstance(x, (ast.Await, ast.Yield, ast.YieldFrom, ast.Lambda, ast.NamedExpr)) for x in ast.walk(e)):
             return None
         return e
+    # `if C: return True` / `return False` (or the mirror image) over a boolean-valued C is `return C` / `return not C`
+    def _boolean(c):
+        if isinstance(c, ast.Compare):
+            return True
+        if isinstance(c, ast.UnaryOp) and isinstance(c.op, ast.Not):
+            return True
+        if isinstance(c, ast.BoolOp):
+            return all(_boolean(v) for v in c.values)
+        return False
+    if len(body) == 2 and isinstance(body[0], ast.If) and not body[0].orelse and len(body[0].body) == 1 and isinstance(body[0].body[0], ast.Return) \
+            and isinstance(body[1], ast.Return) and all(isinstance(r.value, ast.Constant) and isinstance(r.value.value, bool) for r in (body[0].body[0], body[1])) \
+            and body[0].body[0].value.value != body[1].value.value and _boolean(body[0].test):
+        c = body[0].test
+        if any(isinstance(x, (ast.Await, ast.Yield, ast.YieldFrom, ast.Lambda, ast.NamedExpr)) for x in ast.walk(c)):
+            return None
+        return c if body[0].body[0].value.value else ast.copy_location(ast.UnaryOp(ast.Not(), c), c)
     return None
 
 
@@ -1106,7 +1280,16 @@ def inline_helpers(modules, known, rep: Report):
                                 and not any(isinstance(x, FUNC + (ast.Lambda, ast.Yield, ast.YieldFrom, ast.Global, ast.Nonlocal, ast.ClassDef)) and x is not n for x in ast.walk(n)):
                             n._module_level = True  # type: ignore[attr-defined]
                             helpers["mod:" + n.name] = n
-                if not helpers:
+                _GENS.clear()
+                for name, fn in present.items():
+                    if name in kf or name.startswith("__") or name in helpers or not isinstance(fn, ast.FunctionDef):
+                        continue
+                    if any(ast.unparse(d) not in ("staticmethod",) for d in fn.decorator_list):
+                        continue
+                    if any(isinstance(x, (ast.Yield, ast.YieldFrom)) for x in ast.walk(fn)) and not _calls_to(fn, name, sc) \
+                            and not any(isinstance(x, FUNC + (ast.Lambda, ast.Global, ast.Nonlocal, ast.ClassDef)) and x is not fn for x in ast.walk(fn)):
+                        _GENS[name] = fn
+                if not helpers and not _GENS:
                     break
                 failed = set()
                 any_change = False
@@ -1115,6 +1298,10 @@ def inline_helpers(modules, known, rep: Report):
                     nb, ch = _inline_in_block(fn.body, helpers, fn, sc, rep, failed)
                     fn.body = nb
                     any_change |= ch
+                for name, fn in list(_GENS.items()):
+                    if sum(_calls_to(m.tree, name, sc) for m in modules.values()) == 0 and fn in body:
+                        body.remove(fn)
+                _GENS.clear()
                 for name, fn in helpers.items():
                     if name.startswith("mod:"):
                         left = sum(_calls_to(m.tree, name[4:], "") for m in modules.values())
@@ -1151,6 +1338,7 @@ def normalize(modules) -> Report:
     n2.undo_param_renames(modules, known, rep)
     n2.undo_local_renames(modules, known, rep)
     fold_constants(modules, known, rep)
+    n2.expand_scope_classes(modules, known, rep)
     inline_helpers(modules, known, rep)
     n2.constant_attr_access(modules, rep)
     n2.expand_ifexp(modules, known, rep)
